@@ -119,6 +119,16 @@ CHECKS.update({
             "by its classifier (bare stream mapping whose tests all have null parameters)", "DESIGN.md 4 C07"),
 })
 
+CHECKS.update({
+    "C06": ("Hypothesis generated search over ContextResult sequences and yield orders; reference scatter model",
+            "Hand-built ContextResult sequences shaped like the streams' output (disjoint row groups incl. empty and "
+            "all-covering, several keys per group, same test name in two modules, absent axis arrays, uint8/int64 flags) "
+            "are collected in list and dict form under several yield orders (thorough: every permutation when <=5 "
+            "results) and compared row by row with a scatter model: flag on covered rows, masked / UNKNOWN elsewhere, "
+            "source values of data/time/depth/position on covered rows.",
+            "disjoint windows; one CallResult per ContextResult as all stream front ends emit", "DESIGN.md 4 C06"),
+})
+
 NOT_APPLICABLE = {}
 
 
